@@ -28,7 +28,7 @@ CHECKS = {
    "Trusts the harness' FaultAlloc ledger and drop-counting element types; clone()/Default are not fault-injected (cannot report failure); after an injected failure the failed insert's key may be present or absent; H7 step bound defines non-termination.",
    "deterministic simulation: seeded operation histories x exhaustive fail-at-j allocation faults, reference-model oracle"),
  "C13": ("fault_enumeration",
-   "Seeded operation histories (colliding / wrapping handles, every initial capacity, every insertion path) on the real HandleTable against a BTreeMap model after every operation; per history the allocation-failure position is swept exhaustively over every allocation made inside a fallible operation; three allocators; every history also runs with a value type without drop glue. Sampling in the history dimension, exhaustive in the fault position: a clean batch is evidence, not proof.",
+   "Seeded operation histories (colliding / wrapping handles, initial capacities 0-40, powers of two up to 1024 and arbitrary sizes up to 6000, reserve of up to 4200, every insertion path) on the real HandleTable against a BTreeMap model after every operation; per history the allocation-failure position is swept exhaustively over every allocation made inside a fallible operation; three allocators; every history also runs with a value type without drop glue. Sampling in the history dimension, exhaustive in the fault position: a clean batch is evidence, not proof.",
    "Trusts the harness' FaultAlloc ledger and drop-counting value type; entry()/clone() are not fault-injected because their signatures cannot report failure; probe-loop step bound of hook H7 defines non-termination.",
    "deterministic simulation: seeded operation histories x exhaustive fail-at-j allocation faults, reference-model oracle"),
 }
